@@ -24,7 +24,7 @@ PRIV_N = {"__Ni", "_LTE__Ni"}
 PRIV_E = {"__E0", "__dE", "_LTE__E0", "_LTE__dE"}
 PRIV_FLAG = {"__isLTE", "_LTE__isLTE"}
 INPUT_ATTRS = {"T", "P", "x0", "species", "gfe_initial_particles", "gfe_rtol", "gfe_max_iter",
-               "__T", "__P", "__x0", "__species", "_verif_trace"}
+               "__T", "__P", "__x0", "__species", "_verif_trace", "_verif_success"}
 KNOWN_MODULES = {"np", "numpy", "u", "scl", "warnings", "logging", "functions_transport", "functions_radiation",
                  "_sp", "constants", "math", "os"}
 MUTATORS = {"append", "extend", "update", "setdefault", "pop", "clear", "insert", "remove", "add", "popitem", "sort", "fill",
@@ -161,6 +161,21 @@ class Extractor:
                     b = self.block(stmts[i + 1:])
                     out.append(("IfValid", a, b))
                     return out
+                if isinstance(t, ast.Name) and t.id == "_VERIF" and t.id not in self.locals:
+                    # guarded instrumentation: may read anything, may store only into receiver._verif_* attributes
+                    for x in ast.walk(st):
+                        if isinstance(x, (ast.Assign, ast.AugAssign, ast.AnnAssign)):
+                            tg = x.targets if isinstance(x, ast.Assign) else [x.target]
+                            for tt in tg:
+                                if not (isinstance(tt, ast.Attribute) and isinstance(tt.value, ast.Name) and tt.value.id == self.cur.recv
+                                        and tt.attr.startswith("_verif_")):
+                                    self.fail(self.cur.short, x, "instrumentation block stores outside receiver._verif_*")
+                        if isinstance(x, ast.Call) and isinstance(x.func, ast.Attribute) and isinstance(x.func.value, ast.Name) \
+                                and x.func.value.id == self.cur.recv:
+                            self.fail(self.cur.short, x, "instrumentation block calls a receiver method")
+                    if st.orelse:
+                        self.fail(self.cur.short, st, "instrumentation block with else")
+                    continue
                 if isinstance(t, ast.Name) and t.id in self.params:
                     a, b = self.block(st.body), self.block(st.orelse)
                     if a or b:
